@@ -41,8 +41,9 @@ fn de_data<'de, D: serde::Deserializer<'de>>(d: D) -> Result<Vec<u8>, D::Error> 
             let us = SLOW_DE_US.load(std::sync::atomic::Ordering::Relaxed);
             let mut v = Vec::new();
             while let Some(b) = seq.next_element::<u8>()? {
-                if us > 0 {
-                    std::thread::sleep(std::time::Duration::from_micros(us));
+                // one sleep per 32 elements: thousands of tiny sleeps overshoot badly on a loaded machine
+                if us > 0 && v.len() % 32 == 31 {
+                    std::thread::sleep(std::time::Duration::from_micros(us * 32));
                 }
                 v.push(b);
             }
